@@ -67,6 +67,7 @@ var hostFuncs = map[string]interface{}{
 	"go/types.Instantiate":      types.Instantiate,
 	"go/types.NewContext":       types.NewContext,
 	"go/types.RelativeTo":       types.RelativeTo,
+	"go/types.NewMethodSet":     types.NewMethodSet,
 	"go/types.SizesFor":         types.SizesFor,
 	"go/constant.MakeString":    constant.MakeString,
 	"go/constant.MakeBool":      constant.MakeBool,
